@@ -12,7 +12,7 @@ import json
 import os
 import re
 
-_ADDR = re.compile(r"0x[0-9a-f]+|alloc\d+|<\d+>|\b\d{3,}\b")
+_ADDR = re.compile(r"0x[0-9a-f]+|alloc\d+|<\d+>|\d+")
 
 
 def _norm(msg):
@@ -29,12 +29,13 @@ def _repo_frame(lines):
 
 
 def _tsan_frame(lines):
+    """symbolised frames read `#N <function> <path>:<line>:<col> (<module>+0x..)`: first source file of ipa-core"""
     for ln in lines:
-        m = re.search(r"#\d+ (\S*ipa_core::\S+)", ln)
-        if m and "verif" not in m.group(1):
-            f = re.sub(r"::h[0-9a-f]{16}$", "", m.group(1))
-            f = re.sub(r"<[^<>]*>", "<..>", f)
-            return f[:160]
+        if not re.match(r"\s*#\d+ ", ln):
+            continue
+        f = _repo_frame([ln])
+        if f:
+            return f
     return None
 
 
@@ -45,7 +46,7 @@ def parse(text):
     i = 0
     while i < len(lines):
         ln = lines[i]
-        m = re.match(r"^error: Undefined Behavior: (.*)$", ln)
+        m = re.search(r"error: Undefined Behavior: (.*)$", ln)
         if m:
             j = i + 1
             while j < len(lines) and not lines[j].startswith("error:") and j - i < 200:
